@@ -14,12 +14,14 @@ check("C12", "other",
 check("C06", "other",
       "Bounded symbolic verification: applied_min_rows/applied_max_rows/is_join_identity/is_trivial are executed on symbolic "
       "declared leaf bounds (unbounded integers) for all programs up to the stated depth in both engines; z3 decides "
-      "min_rows <= count <= max_rows, column sets and flag implications against direct evaluation over symbolic leaf tables.",
+      "min_rows <= count <= max_rows, column sets and flag implications against direct evaluation over symbolic leaf tables, "
+      "and against the row count of the SQL the real engine compiles (SMT semantics of the statement).",
       BSV, "3/C06")
 check("C19", "other",
       "SMT string encoding regenerated from the AST of get_relation_name: z3 (and cvc5 in the thorough tier) shows two arbitrary "
       "calls cannot collide given distinct uuid4 values, with the counter rendering unconstrained (covers every interleaving), and "
-      "that the prefix is a prefix; translator validated against the real function; sat answers replayed with a forced schedule.",
+      "that the prefix is a prefix; translator validated against the real function; sat answers replayed sequentially, on all "
+      "two-thread schedules with <= 2 pre-emptions at line granularity inside the real function, and under thread stress.",
       "source-to-SMT (string theory) translation of the real function, z3/cvc5 unsat queries", "3/C19")
 check("C01", "other",
       "Bounded symbolic execution of the real iteration engine: execute(), all RowIterable classes and the factory path run on "
